@@ -29,7 +29,15 @@ Proof.
     apply Hb in E. cbn in E. subst v. now apply IH in H.
 Qed.
 
-(* case analysis on the result of the next primitive, innermost first *)
+(* case analysis on the result of the next primitive, outermost closed scrutinee first; equalities already proved about translated
+   sub-programs (hint database gendrv) are used as soon as their arguments are closed terms *)
+Ltac batom x :=
+  lazymatch x with
+  | andb ?p _ => batom p
+  | orb ?p _ => batom p
+  | negb ?p => batom p
+  | _ => x
+  end.
 Ltac dcase :=
   match goal with
   | |- context [match for_ ?xs ?b ?s ?e with _ => _ end] => destruct (for_ xs b s e) as [[[? ?] ?]|] eqn:?
@@ -38,59 +46,59 @@ Ltac dcase :=
       lazymatch x with
       | context [match _ with _ => _ end] => fail
       | context [if _ then _ else _] => fail
-      | _ => destruct x as [[[? ?] ?]|] eqn:?
+      | _ => lazymatch type of x with bool => fail | _ => destruct x as [[[? ?] ?]|] eqn:? end
       end
   | |- context [if ?x then _ else _] =>
       lazymatch x with
       | context [match _ with _ => _ end] => fail
       | context [if _ then _ else _] => fail
-      | _ => destruct x eqn:?
+      | _ => let a := batom x in destruct a eqn:?
       end
   end.
-Ltac dunf := repeat (progress (unfold or_, and_, bind, ret, get_st; cbn beta iota zeta)).
+Ltac dunf := repeat (progress (unfold or_, and_, bind, ret, get_st, r_level, r_hibernating, r_generations, r_metaepoch_count, deme_of; cbn beta iota zeta)).
 Ltac dunit := repeat match goal with u : unit |- _ => destruct u end.
-Ltac dsolve := dunf; repeat (first [reflexivity | congruence | dcase; cbn beta iota zeta in *; dunf; dunit]).
+Create HintDb gendrv.
+Ltac dsolve := dunf; rewrite ?Nat.add_1_r;
+  repeat (first [reflexivity | congruence | progress (autorewrite with gendrv) | dcase; cbn beta iota zeta in *; cbn [andb orb negb] in *; dunf; dunit; try discriminate]).
 
 (* ---------------------------------------------------------------- the deme loops *)
-Lemma gens_cond_eq c d g s e :
-  (s1 <- get_st ;; ret (Nat.ltb g (gens_of c (d_lvl (dnth d (demes s1)))))) s e = gens_cond c d g s e.
-Proof. reflexivity. Qed.
-
-Lemma EA_cond c fuel d g s e : gen_EADeme_run_metaepoch_cond1 c fuel d g s e = gens_cond c d g s e. Proof. reflexivity. Qed.
-Lemma DE_cond c fuel d g s e : gen_DEDeme_run_metaepoch_cond1 c fuel d g s e = gens_cond c d g s e. Proof. reflexivity. Qed.
-Lemma SHADE_cond c fuel d g s e : gen_SHADEDeme_run_metaepoch_cond1 c fuel d g s e = gens_cond c d g s e. Proof. reflexivity. Qed.
-Lemma CMA_cond c fuel d g s e : gen_CMADeme_run_metaepoch_cond1 c fuel d g s e = gens_cond c d g s e. Proof. reflexivity. Qed.
+Lemma EA_cond c fuel d g s e : gen_EADeme_run_metaepoch_cond1 c fuel d g s e = gens_cond c d g s e.
+Proof. unfold gen_EADeme_run_metaepoch_cond1, gens_cond. dsolve. Qed.
+Lemma DE_cond c fuel d g s e : gen_DEDeme_run_metaepoch_cond1 c fuel d g s e = gens_cond c d g s e.
+Proof. unfold gen_DEDeme_run_metaepoch_cond1, gens_cond. dsolve. Qed.
+Lemma SHADE_cond c fuel d g s e : gen_SHADEDeme_run_metaepoch_cond1 c fuel d g s e = gens_cond c d g s e.
+Proof. unfold gen_SHADEDeme_run_metaepoch_cond1, gens_cond. dsolve. Qed.
+Lemma CMA_cond c fuel d g s e : gen_CMADeme_run_metaepoch_cond1 c fuel d g s e = gens_cond c d g s e.
+Proof. unfold gen_CMADeme_run_metaepoch_cond1, gens_cond. dsolve. Qed.
 
 Lemma EA_body c fuel d g s e : gen_EADeme_run_metaepoch_body1 c fuel d g s e = pop_body c d g s e.
-Proof. unfold gen_EADeme_run_metaepoch_body1, pop_body. rewrite Nat.add_1_r. dsolve. Qed.
+Proof. unfold gen_EADeme_run_metaepoch_body1, pop_body. dsolve. Qed.
 Lemma DE_body c fuel d g s e : gen_DEDeme_run_metaepoch_body1 c fuel d g s e = pop_body c d g s e.
-Proof. unfold gen_DEDeme_run_metaepoch_body1, pop_body. rewrite Nat.add_1_r. dsolve. Qed.
+Proof. unfold gen_DEDeme_run_metaepoch_body1, pop_body. dsolve. Qed.
 Lemma SHADE_body c fuel d g s e : gen_SHADEDeme_run_metaepoch_body1 c fuel d g s e = pop_body c d g s e.
-Proof. unfold gen_SHADEDeme_run_metaepoch_body1, pop_body. rewrite Nat.add_1_r. dsolve. Qed.
+Proof. unfold gen_SHADEDeme_run_metaepoch_body1, pop_body. dsolve. Qed.
 Lemma CMA_body c fuel d g s e : gen_CMADeme_run_metaepoch_body1 c fuel d g s e = cma_body c d g s e.
-Proof. unfold gen_CMADeme_run_metaepoch_body1, cma_body. rewrite Nat.add_1_r. dsolve. Qed.
+Proof. unfold gen_CMADeme_run_metaepoch_body1, cma_body. dsolve. Qed.
+
+Lemma EA_loop c fuel d g s e : while_ fuel (gen_EADeme_run_metaepoch_cond1 c fuel d) (gen_EADeme_run_metaepoch_body1 c fuel d) g s e = while_ fuel (gens_cond c d) (pop_body c d) g s e.
+Proof. apply while_ext; [apply EA_cond|apply EA_body]. Qed.
+Lemma DE_loop c fuel d g s e : while_ fuel (gen_DEDeme_run_metaepoch_cond1 c fuel d) (gen_DEDeme_run_metaepoch_body1 c fuel d) g s e = while_ fuel (gens_cond c d) (pop_body c d) g s e.
+Proof. apply while_ext; [apply DE_cond|apply DE_body]. Qed.
+Lemma SHADE_loop c fuel d g s e : while_ fuel (gen_SHADEDeme_run_metaepoch_cond1 c fuel d) (gen_SHADEDeme_run_metaepoch_body1 c fuel d) g s e = while_ fuel (gens_cond c d) (pop_body c d) g s e.
+Proof. apply while_ext; [apply SHADE_cond|apply SHADE_body]. Qed.
+Lemma CMA_loop c fuel d g s e : while_ fuel (gen_CMADeme_run_metaepoch_cond1 c fuel d) (gen_CMADeme_run_metaepoch_body1 c fuel d) g s e = while_ fuel (gens_cond c d) (cma_body c d) g s e.
+Proof. apply while_ext; [apply CMA_cond|apply CMA_body]. Qed.
+#[export] Hint Rewrite EA_loop DE_loop SHADE_loop CMA_loop : gendrv.
 
 (* every population engine class (EADeme, DEDeme, SHADEDeme) runs the same driver loop *)
 Theorem gen_EADeme_eq c fuel d s e : gen_EADeme_run_metaepoch c fuel d s e = run_pop c fuel d s e.
-Proof.
-  unfold gen_EADeme_run_metaepoch, run_pop. unfold bind at 1 2. unfold bind at 3.
-  rewrite (while_ext _ _ _ _ (EA_cond c fuel d) (EA_body c fuel d)). dsolve.
-Qed.
+Proof. unfold gen_EADeme_run_metaepoch, run_pop. dsolve. Qed.
 Theorem gen_DEDeme_eq c fuel d s e : gen_DEDeme_run_metaepoch c fuel d s e = run_pop c fuel d s e.
-Proof.
-  unfold gen_DEDeme_run_metaepoch, run_pop. unfold bind at 1 2. unfold bind at 3.
-  rewrite (while_ext _ _ _ _ (DE_cond c fuel d) (DE_body c fuel d)). dsolve.
-Qed.
+Proof. unfold gen_DEDeme_run_metaepoch, run_pop. dsolve. Qed.
 Theorem gen_SHADEDeme_eq c fuel d s e : gen_SHADEDeme_run_metaepoch c fuel d s e = run_pop c fuel d s e.
-Proof.
-  unfold gen_SHADEDeme_run_metaepoch, run_pop. unfold bind at 1 2. unfold bind at 3.
-  rewrite (while_ext _ _ _ _ (SHADE_cond c fuel d) (SHADE_body c fuel d)). dsolve.
-Qed.
+Proof. unfold gen_SHADEDeme_run_metaepoch, run_pop. dsolve. Qed.
 Theorem gen_CMADeme_eq c fuel d s e : gen_CMADeme_run_metaepoch c fuel d s e = run_cma c fuel d s e.
-Proof.
-  unfold gen_CMADeme_run_metaepoch, run_cma. unfold bind at 1 2. unfold bind at 3.
-  rewrite (while_ext _ _ _ _ (CMA_cond c fuel d) (CMA_body c fuel d)). dsolve.
-Qed.
+Proof. unfold gen_CMADeme_run_metaepoch, run_cma. dsolve. Qed.
 Theorem gen_LocalDeme_eq c fuel d s e : gen_LocalDeme_run_metaepoch c fuel d s e = run_local d s e.
 Proof. unfold gen_LocalDeme_run_metaepoch, run_local. dsolve. Qed.
 Theorem gen_LHSDeme_eq c fuel d s e : gen_LHSDeme_run_metaepoch c fuel d s e = run_sampler c d s e.
@@ -104,77 +112,80 @@ Proof. reflexivity. Qed.
 
 Theorem gen_run_deme_eq c fuel d s e : gen_run_deme c fuel d s e = run_deme c fuel d s e.
 Proof.
-  unfold gen_run_deme, run_deme, r_level, deme_of. dunf.
+  unfold gen_run_deme, run_deme. dunf.
   destruct (kind_of c (d_lvl (dnth d (demes (ms s))))).
   - apply gen_EADeme_eq.
   - apply gen_CMADeme_eq.
   - apply gen_LocalDeme_eq.
   - apply gen_LHSDeme_eq.
 Qed.
+#[export] Hint Rewrite gen_run_deme_eq : gendrv.
 
 (* ---------------------------------------------------------------- tree.py *)
 Theorem gen_active_demes_eq c ds : gen_active_demes c ds = active_demes c ds. Proof. reflexivity. Qed.
 Theorem gen_active_non_leaves_eq c ds : gen_active_non_leaves c ds = active_non_leaves c ds. Proof. reflexivity. Qed.
+#[export] Hint Rewrite gen_active_demes_eq gen_active_non_leaves_eq : gendrv.
 
-Definition meta_body (c : cfg) (fuel : nat) (d : nat) : D bool :=
-  h <- r_hibernating d ;; if hib_on c && h then ret false else run_deme c fuel d ;;; ret false.
 Lemma meta_body_eq c fuel x s e : gen_tree_run_metaepoch_for1 c fuel x s e = meta_body c fuel x s e.
-Proof.
-  unfold gen_tree_run_metaepoch_for1, meta_body, r_hibernating, deme_of. dunf.
-  destruct (hib_on c); cbn [andb]; [|now rewrite gen_run_deme_eq].
-  destruct (d_hib (dnth x (demes (ms s)))); [reflexivity|now rewrite gen_run_deme_eq].
-Qed.
+Proof. unfold gen_tree_run_metaepoch_for1, meta_body. dsolve. Qed.
+Lemma meta_loop c fuel xs s e : for_ xs (gen_tree_run_metaepoch_for1 c fuel) s e = for_ xs (meta_body c fuel) s e.
+Proof. apply for_ext. apply meta_body_eq. Qed.
+#[export] Hint Rewrite meta_loop : gendrv.
 Theorem gen_tree_run_metaepoch_eq c fuel s e : gen_tree_run_metaepoch c fuel s e = run_metaepoch c fuel s e.
-Proof.
-  unfold gen_tree_run_metaepoch, run_metaepoch. dunf. rewrite gen_active_demes_eq.
-  rewrite (for_ext _ _ (meta_body_eq c fuel)). unfold meta_body. dsolve.
-Qed.
+Proof. unfold gen_tree_run_metaepoch, run_metaepoch. dsolve. Qed.
+#[export] Hint Rewrite gen_tree_run_metaepoch_eq : gendrv.
 
 Lemma sprout_child_eq c fuel it1 seeds target x s e :
   gen_tree__do_sprout_for2 c fuel it1 seeds target x s e = sprout_child (fst it1) target s e.
-Proof. unfold gen_tree__do_sprout_for2, sprout_child, r_metaepoch_count. dsolve. Qed.
+Proof. unfold gen_tree__do_sprout_for2, sprout_child. dsolve. Qed.
+Lemma sprout_child_loop c fuel it1 seeds target xs s e :
+  for_ xs (gen_tree__do_sprout_for2 c fuel it1 seeds target) s e = for_ xs (fun _ => sprout_child (fst it1) target) s e.
+Proof. apply for_ext. intros. apply sprout_child_eq. Qed.
+#[export] Hint Rewrite sprout_child_loop : gendrv.
+Lemma sprout_child_never_returns p target (x : Z) s e r : sprout_child p target s e = Some r -> fst (fst r) = false.
+Proof. unfold sprout_child. dunf. repeat (dcase; cbn beta iota zeta; dunf); intros H; try discriminate; now injection H as <-. Qed.
+Lemma sprout_children_never_return p target (xs : list Z) s e b s1 e1 :
+  for_ xs (fun _ => sprout_child p target) s e = Some (b, s1, e1) -> b = false.
+Proof. intros H. apply (for_false (fun _ : Z => sprout_child p target)) in H; [exact H|]. intros x. apply (sprout_child_never_returns p target x). Qed.
 Lemma sprout_parent_eq c fuel seeds pk s e :
-  gen_tree__do_sprout_for1 c fuel seeds pk s e = (lv <- r_level (fst pk) ;; for_ (snd pk) (fun _ => sprout_child (fst pk) (S lv))) s e.
+  gen_tree__do_sprout_for1 c fuel seeds pk s e = sprout_parent pk s e.
 Proof.
-  unfold gen_tree__do_sprout_for1, r_level, deme_of. dunf. rewrite Nat.add_1_r.
-  rewrite (for_ext _ _ (sprout_child_eq c fuel pk seeds _)).
-  destruct (for_ (snd pk) _ s e) as [[[b s1] e1]|] eqn:E; [|reflexivity].
-  apply (for_false (fun _ : Z => sprout_child (fst pk) (S (d_lvl (dnth (fst pk) (demes (ms s))))))) in E; [cbn in E; now subst b|].
-  intros x s0 e0 r H. unfold sprout_child in H. revert H. dunf. repeat (dcase; cbn beta iota zeta; dunf); intros H; try discriminate; now injection H as <-.
+  unfold gen_tree__do_sprout_for1, sprout_parent. dunf. rewrite ?Nat.add_1_r. autorewrite with gendrv.
+  destruct (for_ (snd pk) _ s e) as [[[b s1] e1]|] eqn:E; [|reflexivity]. apply sprout_children_never_return in E. now subst b.
 Qed.
+Lemma sprout_parent_loop c fuel seeds xs s e :
+  for_ xs (gen_tree__do_sprout_for1 c fuel seeds) s e = for_ xs sprout_parent s e.
+Proof. apply for_ext. intros. apply sprout_parent_eq. Qed.
+#[export] Hint Rewrite sprout_parent_loop : gendrv.
 Theorem gen_tree__do_sprout_eq c fuel seeds s e : gen_tree__do_sprout c fuel seeds s e = do_sprout_b seeds s e.
-Proof.
-  unfold gen_tree__do_sprout, do_sprout_b. dunf. rewrite (for_ext _ _ (sprout_parent_eq c fuel seeds)). dsolve.
-Qed.
+Proof. unfold gen_tree__do_sprout, do_sprout_b. dsolve. Qed.
+#[export] Hint Rewrite gen_tree__do_sprout_eq : gendrv.
 
 Lemma hib_body_eq c fuel seeds parts x s e :
-  gen_tree_run_sprout_for1 c fuel seeds parts x s e = (p_set_hibernating x (negb (in_seeds seeds x)) ;;; ret false) s e.
-Proof. unfold gen_tree_run_sprout_for1. destruct (in_seeds seeds x); reflexivity. Qed.
+  gen_tree_run_sprout_for1 c fuel seeds parts x s e = hib_body seeds x s e.
+Proof. unfold gen_tree_run_sprout_for1, hib_body. dsolve. Qed.
+Lemma hib_loop c fuel seeds parts xs s e :
+  for_ xs (gen_tree_run_sprout_for1 c fuel seeds parts) s e = for_ xs (hib_body seeds) s e.
+Proof. apply for_ext. intros. apply hib_body_eq. Qed.
+#[export] Hint Rewrite hib_loop : gendrv.
 Theorem gen_tree_run_sprout_eq c fuel s e : gen_tree_run_sprout c fuel s e = run_sprout c s e.
-Proof.
-  unfold gen_tree_run_sprout, run_sprout. dunf. rewrite gen_active_non_leaves_eq.
-  destruct (p_get_seeds c s e) as [[[seeds s1] e1]|]; [|reflexivity]. rewrite gen_tree__do_sprout_eq.
-  destruct (do_sprout_b seeds s1 e1) as [[[[] s2] e2]|]; [|reflexivity]. rewrite andb_diag.
-  destruct (hib_on c); [|reflexivity].
-  rewrite (for_ext _ _ (hib_body_eq c fuel seeds _)). dsolve.
-Qed.
+Proof. unfold gen_tree_run_sprout, run_sprout. dsolve. Qed.
+#[export] Hint Rewrite gen_tree_run_sprout_eq : gendrv.
 
 Theorem gen_tree_run_step_eq c fuel s e : gen_tree_run_step c fuel s e = run_step c fuel s e.
-Proof.
-  unfold gen_tree_run_step, run_step. dunf.
-  destruct (p_inc_metaepoch c s e) as [[[[] s1] e1]|]; [|reflexivity]. rewrite gen_tree_run_metaepoch_eq.
-  destruct (run_metaepoch c fuel s1 e1) as [[[[] s2] e2]|]; [|reflexivity].
-  destruct (p_gsc c s2 e2) as [[[v s3] e3]|]; [|reflexivity]. destruct v; cbn [negb]; [reflexivity|].
-  rewrite gen_tree_run_sprout_eq. dsolve.
-Qed.
+Proof. unfold gen_tree_run_step, run_step. dsolve. Qed.
+#[export] Hint Rewrite gen_tree_run_step_eq : gendrv.
 
-Lemma run_cond_eq c fuel l s e : gen_tree_run_cond1 c fuel l s e = (v <- p_gsc c ;; ret (negb v)) s e. Proof. reflexivity. Qed.
-Lemma run_body_eq c fuel l s e : gen_tree_run_body1 c fuel l s e = (run_step c fuel ;;; ret (tt, false)) s e.
-Proof. unfold gen_tree_run_body1. dunf. rewrite gen_tree_run_step_eq. reflexivity. Qed.
+Lemma run_cond_eq c fuel l s e : gen_tree_run_cond1 c fuel l s e = run_cond c l s e.
+Proof. unfold gen_tree_run_cond1, run_cond. dsolve. Qed.
+Lemma run_body_eq c fuel l s e : gen_tree_run_body1 c fuel l s e = run_body c fuel l s e.
+Proof. unfold gen_tree_run_body1, run_body. dsolve. Qed.
+Lemma run_loop c fuel l s e :
+  while_ fuel (gen_tree_run_cond1 c fuel) (gen_tree_run_body1 c fuel) l s e =
+  while_ fuel (run_cond c) (run_body c fuel) l s e.
+Proof. apply while_ext; [apply run_cond_eq|apply run_body_eq]. Qed.
+#[export] Hint Rewrite run_loop : gendrv.
 
 (* THE TIE: the run() translated from the current sources is the big-step driver that Proofs/DriverFacts.v relates to the machine *)
 Theorem gen_tree_run_eq c fuel s e : gen_tree_run c fuel s e = run_tree c fuel s e.
-Proof.
-  unfold gen_tree_run, run_tree. unfold bind at 1 2. unfold bind at 3.
-  rewrite (while_ext _ _ _ _ (run_cond_eq c fuel) (run_body_eq c fuel)). dsolve.
-Qed.
+Proof. unfold gen_tree_run, run_tree. dsolve. Qed.
